@@ -60,7 +60,9 @@ def gen_case(seed: int, tier: str, index: int) -> Dict[str, Any]:
         else:
             t += rng.uniform(0.2, dur / max(4, nops / 2))
         op = {"op": rng.choice(OPS), "t": round(min(t, dur), 4), "arg": rng.randrange(1 << 16)}
-        if rng.random() < 0.12:
+        if rng.random() < 0.12 and profile != "faultfree":
+            # cancelling a caller in flight leaves its replies in the receive queue: it is a fault the harness injects,
+            # so the fault-free configuration (which carries the must-succeed obligation) never does it
             op["cancel_after"] = round(rng.uniform(0.0, 3 * T), 3)
         plan.append(op)
     snaps = snapshot_files()
